@@ -80,6 +80,7 @@ type Unit struct {
 	Merges     []string          `json:"merges"`
 	DenyInit   []string          `json:"deny_init"`
 	Env        map[string]string `json:"env"`
+	LenientFmt bool              `json:"lenient_sprintf"` // symbolic numbers in Sprintf render as a placeholder
 	Harnesses  []Harness         `json:"harnesses"`
 }
 
@@ -525,7 +526,7 @@ func check(id, tier string) int {
 			}
 			if prog == nil {
 				prog, err = exec.Load(exec.Config{Dir: filepath.Join(repoDir, u.Dir), Pkg: u.Pkg, Overlay: bu.engine,
-					Redirects: u.Redirects, Noops: u.Noops, Merges: u.Merges, DenyInit: u.DenyInit, Env: u.Env,
+					Redirects: u.Redirects, Noops: u.Noops, Merges: u.Merges, DenyInit: u.DenyInit, Env: u.Env, LenientSprintf: u.LenientFmt,
 					Workers: workers(), TimeoutMS: b.TimeoutS * 1000, Solver: envOr("GOSYM_SOLVER", "z3")})
 				if err != nil {
 					fmt.Printf("INCONCLUSIVE property=%s unit=%s load: %v\n", id, u.Name, err)
@@ -901,7 +902,7 @@ func replay(path string) int {
 			}
 			bnd := tierOf(h, tier)
 			prog, err := exec.Load(exec.Config{Dir: filepath.Join(repoDir, u.Dir), Pkg: u.Pkg, Overlay: bu.engine,
-				Redirects: u.Redirects, Noops: u.Noops, Merges: u.Merges, DenyInit: u.DenyInit, Env: u.Env, Workers: 1, TimeoutMS: bnd.TimeoutS * 1000})
+				Redirects: u.Redirects, Noops: u.Noops, Merges: u.Merges, DenyInit: u.DenyInit, Env: u.Env, LenientSprintf: u.LenientFmt, Workers: 1, TimeoutMS: bnd.TimeoutS * 1000})
 			if err != nil {
 				fmt.Println(err)
 				return 2
